@@ -137,7 +137,7 @@ func checkDataset(w *DatasetWorld) (obs []uint64, fails []mc.Fail) {
 	return
 }
 
-func datasetScenario(tier string) *mc.Scenario[*DatasetWorld] {
+func datasetScenario(tier string, long bool) *mc.Scenario[*DatasetWorld] {
 	vals := []float64{-2, -1, 0, 1, 3.5}
 	sc := &mc.Scenario[*DatasetWorld]{Name: "C20/datasets", Property: "C20", Depth: 6, Slots: 2, FrameClause: "C20.frame"}
 	if tier == "thorough" {
@@ -179,6 +179,26 @@ func datasetScenario(tier string) *mc.Scenario[*DatasetWorld] {
 			d.Floats(xs)
 		}
 	}
+	if long {
+		// long inputs: a sum kept by plain accumulation drifts by about n/6 ulps
+		many := func(s int, v float64, n int) mc.Op[*DatasetWorld] {
+			return dsOp(fmt.Sprintf("%s.Add(%s) x %d", slotName(s), fstr(v), n), 1<<uint(s), func(w *DatasetWorld) {
+				for i := 0; i < n; i++ {
+					w.D[s].Add(v)
+					w.M[s] = append(w.M[s], v)
+				}
+			})
+		}
+		sc.Name = "C20/datasets/long"
+		sc.Depth = 2
+		if tier == "thorough" {
+			sc.Depth = 3
+		}
+		sc.Seeds = []mc.Seed[*DatasetWorld]{
+			{Name: "512 x 0.1", Ops: []mc.Op[*DatasetWorld]{many(0, 0.1, 512)}},
+			{Name: "300 x 7.3 and 300 x -7.3", Ops: []mc.Op[*DatasetWorld]{many(0, 7.3, 300), many(1, -7.3, 300)}},
+		}
+	}
 	sc.Check = checkDataset
 	sc.Explain = func(w *DatasetWorld, slot int) string { return observeDataset(w.D[slot], len(w.M[slot])) }
 	sc.Abstract = func(w *DatasetWorld) (uint64, bool) {
@@ -199,7 +219,7 @@ func init() {
 		Rule:        "explicit-state BFS over histories of two real datasets: Add(v) for v in {-2,-1,0,1,3.5} (duplicates arise by repetition), queries as transitions (they sort lazily), Merge in both directions; a case is one distinct concrete state (values in their current order, count, the private sorted flag) with the multiset added; every state is compared with a sorted slice on count, min, max, sum and lower/upper/plain quantile at every q of Q(n) and at out-of-range q, and Min, Max, the extreme quantiles and Sum are each also asked as the very first query after the history on a rebuilt instance; frame clause: queries and being the argument of Merge change no answer; distinct_nontrivial counts distinct pairs of multisets",
 		Assumptions: []string{"the rank may be computed exactly or as the float64 product q*(n-1) (both floors/ceilings are accepted)", "NaN as q is outside the stated domain and is not probed; Min/Max are queried on non-empty datasets only"},
 		Shards: func(tier string) []mc.Shard {
-			return []mc.Shard{mc.ShardOf(datasetScenario(tier), 1)}
+			return []mc.Shard{mc.ShardOf(datasetScenario(tier, false), 10), mc.ShardOf(datasetScenario(tier, true), 1)}
 		},
 		ShardBudget: budget(70*time.Second, 12*time.Minute),
 	})
